@@ -95,7 +95,7 @@ func init() {
 		}
 		if fd := ex.fn(crel, "Cache", "doLazyUpdate"); fd != nil {
 			ss := stmtStrings(ex, fd.Body)
-			ex.setBool("c10LazyUpdateUsesContextCopy", indexOf(ss, "qCtxCopy := qCtx.Copy()") == 0 && contains(ss, "if r != nil { saveRespToCache(msgKey, r, c.backend, c.args.LazyCacheTTL) c.updatedKey.Add(1) }"), true,
+			ex.setBool("c10LazyUpdateUsesContextCopy", indexOf(ss, "qCtxCopy := qCtx.Copy()") == 0 && contains(ss, "if r != nil && rBefore != r { saveRespToCache(msgKey, r, c.backend, c.args.LazyCacheTTL) c.updatedKey.Add(1) }"), true,
 				"doLazyUpdate works on a copy of the query context and stores through saveRespToCache")
 		}
 		if fd := ex.fn(crel, "Cache", "readDump"); fd != nil {
